@@ -5,6 +5,10 @@ from . import runlevel
 
 PID = "C05"
 
+# case kinds of corpus/ entries (failing inputs of past regressions) that this module replays on every run
+CORPUS_KINDS = ('noisy_run',)
+
+
 
 def single_sample_specs(ctx):
     """Noisy runs with noise_final_samples = 1 (the estimate is supplemented by the earlier observation at the returned x) and 0."""
